@@ -14,7 +14,8 @@ EXTENDS Sequences, FiniteSets
 RefOpsF == {"ref_dangling", "ref_self", "ref_parent", "ref_wrong_kind", "ref_scalar", "ref_array_elem", "ref_escaped_ptr",
             "ref_hash_only", "ref_empty", "ref_ext_scalar", "ref_ext_array", "ref_ext_empty", "ref_ext_nonjson", "ref_ext_missing",
             "ref_cycle_two", "ref_array_len", "ref_array_beyond", "ref_array_neg", "ref_array_nonnum", "ref_deep_array_len",
-            "ref_absent_subfield", "ref_through_unresolved_ref", "ref_callback_self"}
+            "ref_absent_subfield", "ref_through_unresolved_ref", "ref_callback_self",
+            "ref_ext_tab", "ref_ext_bom", "ref_ext_null", "ref_ext_yamlsep"}
 NilDeref == "runtime error: invalid memory address or nil pointer dereference"
 NoName == "unable to resolve reference to name"
 
